@@ -99,6 +99,7 @@ class QueryV:
     def clone(self):
         q = QueryV(self.kind)
         q.table, q.columns, q.where, q.order, q.values = self.table, list(self.columns), list(self.where), self.order, self.values
+        q.source = getattr(self, "source", None)
         return q
 
 
@@ -133,6 +134,8 @@ def text_of(engine, v):
     v = deref(v)
     if isinstance(v, FmtString):
         return v.text
+    if isinstance(v, QueryV):
+        return render(v)
     b = M.as_bytes(engine, v)
     if not b.len.concrete:
         raise Untranslatable("SQL text of symbolic length")
@@ -229,6 +232,90 @@ def m_fmtstring_deref(engine, ctx, args, callee, frame):
 
 # ------------------------------------------------------------------ sql_query_builder
 
+_OPS = ("<>", "!=", ">=", "<=", "=", ">", "<")
+
+
+def split_and(text):
+    """split on top-level AND"""
+    parts, depth, cur = [], 0, ""
+    toks = re.split(r"(\(|\)|\s+AND\s+)", text, flags=re.I)
+    for t in toks:
+        if t == "(":
+            depth += 1
+        elif t == ")":
+            depth -= 1
+        if depth == 0 and re.fullmatch(r"\s+AND\s+", t or "", flags=re.I):
+            parts.append(cur)
+            cur = ""
+        else:
+            cur += t or ""
+    parts.append(cur)
+    return [p.strip() for p in parts if p.strip()]
+
+
+def parse_select(text):
+    """SELECT cols [FROM t] [WHERE conds] [ORDER BY col dir]  ->  QueryV"""
+    m = re.fullmatch(r"SELECT\s+(.*?)(?:\s+FROM\s+(\w+))?(?:\s+WHERE\s+(.*?))?(?:\s+ORDER\s+BY\s+(\w+)(?:\s+(ASC|DESC))?)?\s*;?", text.strip(), flags=re.I | re.S)
+    if not m:
+        raise Untranslatable("SELECT statement %r" % text)
+    q = QueryV("select")
+    q.columns = [c.strip() for c in m.group(1).split(",")]
+    q.table = m.group(2)
+    if m.group(3):
+        q.where = parse_conditions(m.group(3))
+    if m.group(4):
+        q.order = (m.group(4), (m.group(5) or "ASC").upper() == "DESC")
+    return q
+
+
+def parse_conditions(text):
+    out = []
+    for part in split_and(" ".join(text.split())):
+        m = re.fullmatch(r"(NOT\s+)?EXISTS\s*\((.*)\)", part, flags=re.I | re.S)
+        if m:
+            out.append(("exists", bool(m.group(1)), parse_select(m.group(2))))
+            continue
+        m = re.fullmatch(r"(\w+)\s*(<>|!=|>=|<=|=|>|<)\s*\?(\d+)", part)
+        if m:
+            out.append(("cmp", m.group(1), m.group(2), ("param", int(m.group(3)))))
+            continue
+        m = re.fullmatch(r"(\w+)\s*(<>|!=|>=|<=|=|>|<)\s*\(\s*SELECT\s+(MAX|MIN)\((\w+)\)\s+FROM\s+(\w+)(?:\s+WHERE\s+(.*))?\)", part, flags=re.I | re.S)
+        if m:
+            sub = QueryV("select")
+            sub.table = m.group(5)
+            sub.where = parse_conditions(m.group(6)) if m.group(6) else []
+            out.append(("cmp", m.group(1), m.group(2), ("agg", m.group(3).upper(), m.group(4), sub)))
+            continue
+        raise Untranslatable("WHERE clause %r" % text)
+    return out
+
+
+def render(q):
+    """SQL text of a structured query (for statements that embed another statement's text)"""
+    def conds(ws):
+        out = []
+        for w in ws:
+            if w[0] == "exists":
+                out.append("%sEXISTS (%s)" % ("NOT " if w[1] else "", render(w[2])))
+            elif w[3][0] == "param":
+                out.append("%s %s ?%d" % (w[1], w[2], w[3][1]))
+            else:
+                sub = w[3][3]
+                out.append("%s %s (SELECT %s(%s) FROM %s%s)" % (w[1], w[2], w[3][1], w[3][2], sub.table,
+                                                                 (" WHERE " + conds(sub.where)) if sub.where else ""))
+        return " AND ".join(out)
+    if q.kind == "select":
+        t = "SELECT " + ", ".join(q.columns)
+        if q.table:
+            t += " FROM " + q.table
+        if q.where:
+            t += " WHERE " + conds(q.where)
+        if q.order:
+            t += " ORDER BY %s %s" % (q.order[0], "DESC" if q.order[1] else "ASC")
+        return t
+    raise Untranslatable("text of a %s statement" % q.kind)
+
+
 _KIND = {"Select": "select", "Insert": "insert", "Delete": "delete"}
 
 
@@ -259,26 +346,19 @@ def m_q_clause(engine, ctx, args, callee, frame):
             raise Untranslatable("VALUES clause %r" % text)
         q.values = [int(p[1:]) for p in ps]
     elif name == "where_clause":
-        sub = re.fullmatch(r"(\w+)\s*=\s*\(\s*SELECT\s+(MAX|MIN)\((\w+)\)\s+FROM\s+(\w+)\s+WHERE\s+(.*)\)", text, flags=re.I)
-        if sub:
-            conds = []
-            for part in re.split(r"\s+AND\s+", sub.group(5), flags=re.I):
-                m = re.fullmatch(r"(\w+)\s*=\s*\?(\d+)", part.strip())
-                if not m:
-                    raise Untranslatable("WHERE clause %r" % text)
-                conds.append((m.group(1), int(m.group(2))))
-            q.where.append(("=subquery", (sub.group(1), sub.group(2).upper(), sub.group(3), sub.group(4), conds)))
-            return q
-        for part in re.split(r"\s+AND\s+", text, flags=re.I):
-            m = re.fullmatch(r"(\w+)\s*=\s*\?(\d+)", part.strip())
-            if not m:
-                raise Untranslatable("WHERE clause %r" % text)
-            q.where.append((m.group(1), int(m.group(2))))
+        q.where.extend(parse_conditions(text))
     elif name == "order_by":
         m = re.fullmatch(r"(\w+)(?:\s+(ASC|DESC))?", text, flags=re.I)
         if not m:
             raise Untranslatable("ORDER BY clause %r" % text)
         q.order = (m.group(1), (m.group(2) or "ASC").upper() == "DESC")
+    return q
+
+
+@model(r"^sql_query_builder::\w+::\w+::<impl (sql_query_builder::)?Insert>::select$")
+def m_q_insert_select(engine, ctx, args, callee, frame):
+    q = deref(args[0]).clone()
+    q.source = deref(args[1])
     return q
 
 
@@ -325,26 +405,48 @@ def same(engine, ctx, a, b):
         return ctx.branch(M.eq_formula(engine, a, b))
 
 
+def compare(engine, ctx, a, op, b):
+    a, b = deref(a), deref(b)
+    if op in ("=", "<>", "!="):
+        e = same(engine, ctx, a, b)
+        return e if op == "=" else not e
+    if not (isinstance(a, Int) and isinstance(b, Int)):
+        raise Untranslatable("ordering comparison of non-integer columns")
+    if a.bits != b.bits:
+        b = Int(b.v, a.bits, a.signed)
+    name = {">": "Gt", ">=": "Ge", "<": "Lt", "<=": "Le"}[op]
+    return ctx.branch(int_binop(name, Int(a.v, a.bits, True), Int(b.v, b.bits, True)))
+
+
 def row_matches(engine, ctx, r, where, params):
-    for col, i in where:
-        if col == "=subquery":
-            lhs, agg, acol, table, conds = i
-            cand = [x for x in db_of(ctx).tables.get(table, []) if all(same(engine, ctx, x[c], params[k - 1]) for c, k in conds)]
+    for w in where:
+        if w[0] == "exists":
+            found = bool(select_rows(engine, ctx, w[2], params))
+            if found == w[1]:
+                return False
+            continue
+        _, col, op, rhs = w
+        if rhs[0] == "param":
+            val = params[rhs[1] - 1]
+        else:
+            _, agg, acol, sub = rhs
+            cand = [x for x in db_of(ctx).tables.get(sub.table, []) if row_matches(engine, ctx, x, sub.where, params)]
             if not cand:
                 return False              # comparison with NULL
             keys = [x[acol] for x in cand]
             if not all(isinstance(k, Int) and k.concrete for k in keys):
                 raise Untranslatable("aggregate over a symbolic column")
-            best = (max if agg == "MAX" else min)(k.v for k in keys)
-            if not same(engine, ctx, r[lhs], Int(best, 64, True)):
-                return False
-        elif not same(engine, ctx, r[col], params[i - 1]):
+            val = Int((max if agg == "MAX" else min)(k.v for k in keys), 64, True)
+        if not compare(engine, ctx, r[col], op, val):
             return False
     return True
 
 
 def select_rows(engine, ctx, q, params):
     db = db_of(ctx)
+    if q.table is None:
+        # SELECT <expressions> [WHERE ..] without FROM: one row when the condition holds
+        return [{}] if row_matches(engine, ctx, {}, q.where, params) else []
     rows = db.tables.setdefault(q.table, [])
     out = []
     for r in rows:
@@ -369,7 +471,17 @@ def run_statement(engine, ctx, stmt, params):
     if q.kind == "insert":
         pk = db.pk.get(q.table)
         row = {}
-        for col, i in zip(q.columns, q.values):
+        values = q.values
+        if values is None and getattr(q, "source", None) is not None:
+            # INSERT INTO t (cols) SELECT ?a, ?b, .. [WHERE cond]
+            src = q.source
+            if src.table is not None or not all(re.fullmatch(r"\?\d+", c) for c in src.columns):
+                raise Untranslatable("INSERT .. SELECT from a table")
+            if not select_rows(engine, ctx, src, params):
+                db.log.append("insert into %s skipped by its condition" % q.table)
+                return 0
+            values = [int(c[1:]) for c in src.columns]
+        for col, i in zip(q.columns, values):
             row[col] = deep_copy(params[i - 1])
         if pk and pk not in row:
             mx = max([r[pk].v for r in rows], default=0)
